@@ -15,7 +15,7 @@ FIELDS = [
     # producer threads (by index)
     ("ppc", "nat -> ppc_t"), ("pprog", "nat -> list pop"), ("pseq", "nat -> N"), ("presl", "nat -> list pres"),
     # the consumer thread
-    ("cpc", "cpc_t"), ("cprog", "list cop"), ("cresl", "list cres"), ("chand", "val"),
+    ("cpc", "cpc_t"), ("cprog", "list cop"), ("cresl", "list cres"), ("chand", "list val"),
     # ghost
     ("tk", "N -> tstat"), ("received", "list val"), ("bad", "bool"),
 ]
